@@ -19,7 +19,7 @@ from .common import COQ
 FOREIGN = 1_000_000
 COQ_MODEL = ["C14G/CfgSem.v", "C14G/CfgCheck.v"]
 COQ_PROOFS = ["C14G/CfgSemProofs.v", "C14G/ChainProofs.v", "C14G/FlipProofs.v", "C14G/TailProofs.v", "C14G/SplitProofs.v",
-              "C14G/PhiProofs.v", "C14G/PropsCfg.v"]
+              "C14G/PhiProofs.v", "C14G/AsmCfg.v", "C14G/AsmCfgProofs.v", "C14G/PropsCfg.v"]
 IMPORTS = ("From Coq Require Import NArith String.\nFrom Verif Require Import C14G.CfgSem C14G.CfgCheck.\n"
            "Open Scope string_scope.\nOpen Scope Z_scope.\n")
 PASSES = ("SimplifyCFGPass", "BranchOptimizationPass", "TailMergePass", "CFGNormalization")
@@ -608,7 +608,9 @@ def backend_phi_semantics():
 
 # ------------------------------------------------------------------ entry points
 def prebuild(ctx):
-    return ctx.coq_build_cached(COQ_MODEL + COQ_PROOFS)
+    r = ctx.coq_build_cached(COQ_MODEL + COQ_PROOFS)
+    ctx.coq_build_cached(["C14G/AsmCfg.v", "C14G/AsmCfgProofs.v"], deps=COQ_MODEL + ["C14G/CfgSemProofs.v"])
+    return r
 
 
 def part_cfg_passes(ctx):
@@ -795,3 +797,9 @@ def part_cfg_passes(ctx):
     ctx.trusted += ["C14G: snapshot/export of IRFunction objects to Coq literals and the aligned block numbering (tools/vlib/c14g_part.py); "
                     "the semantics of CfgSem.v (sequential phis; applies to functions whose phis are independent, checked per instance)"]
     return stats["checked"]
+
+
+def part_asm_cfg(ctx):
+    """control-flow side of code generation (tools/vlib/c14g_asm.py)"""
+    from . import c14g_asm
+    return c14g_asm.part_asm_cfg(ctx)
